@@ -7,7 +7,7 @@ the file named by MESON_VERIF_EFFECT_LOG (if set):
     <index> <kind> <path relative to the build dir> [<second path>|<nbytes>]
 
 Kinds: open_w (create/truncate for writing), open_a (append / r+), write, flush, fsync, close, replace, rename,
-unlink, rmdir, mkdir, copyfile, other.  Paths outside the build directory are printed as `@out`.
+unlink, rmdir, mkdir, copyfile, other.  Paths outside the build directory are printed as `@out/<basename>`.
 Files under meson-logs/ are not state (meson never reads them back) and are not effects.
 
 MESON_VERIF_CRASH_AT=k   the process calls os._exit(137) right BEFORE performing effect k (Python's own
@@ -65,6 +65,13 @@ if _BD:
         if r.startswith('meson-logs' + _os.sep) or r == 'meson-logs':
             return None
         return r
+
+    def _out(path):
+        """name of a path outside the build dir: only its basename is kept (temp dir names vary)"""
+        try:
+            return '@out/' + _os.path.basename(_os.fsdecode(_os.fspath(path)))
+        except Exception:
+            return '@out/?'
 
     def _effect(kind, rel, extra=''):
         """returns True when the caller must crash *inside* this effect (torn variant)"""
@@ -166,7 +173,7 @@ if _BD:
         def w(src, dst, *a, **kw):
             rs, rd = _rel(src), _rel(dst)
             if rs is not None or rd is not None:
-                _effect(kind, rs or '@out', (rd or '@out').replace(' ', '%20'))
+                _effect(kind, rs or _out(src), (rd or _out(dst)).replace(' ', '%20'))
             return real(src, dst, *a, **kw)
         w.__name__ = name
         setattr(mod, name, w)
@@ -202,7 +209,7 @@ if _BD:
         rs, rd = _rel(src), _rel(dst)
         if rs is None and rd is None:
             return _real_copyfile(src, dst, *a, **kw)
-        torn = _effect('copyfile', rs or '@out', (rd or '@out').replace(' ', '%20'))
+        torn = _effect('copyfile', rs or _out(src), (rd or _out(dst)).replace(' ', '%20'))
         if torn:
             with _real_open(src, 'rb') as fi:
                 data = fi.read()
